@@ -3,6 +3,7 @@ import OFModel.Config.Grammar
 import OFModel.Config.Base
 import OFModel.Config.IO
 import OFModel.Config.Webvis
+import OFModel.Config.REST
 open Lean Driver OF.Config
 namespace Driver.C11
 
@@ -138,7 +139,19 @@ def envOfJson (j : Json) : R Env := do
         match optF it "exc" with
         | some (.str e) => return (k, Except.error (errOfName e))
         | _ => return (k, Except.ok (← valOfJson (fldD it "ok" Json.null))))
+  -- `isdir`: {path: abspath | null} for the `resource_path` of the config
+  let dirs : List (Str × Option Str) ← match optF j "isdir" with
+    | none => pure []
+    | some t => do
+      (← arr t).mapM (fun it => do
+        let k := ofStr (← strF it "s")
+        match optF it "abs" with
+        | some (.str a) => return (k, some (ofStr a))
+        | _ => return (k, none))
   return { exitAfter := fun _ => ea,
+           isDir := fun s => match dirs.find? (fun p => p.1 = s) with
+             | some p => p.2
+             | none => none,
            segtime := fun s => match tbl.find? (fun p => p.1 = s) with
              | some p => p.2
              | none => .error .other }
@@ -152,6 +165,8 @@ def normalizeClass (cls : String) (env : Env) (c : Dict) : R (Except Err Dict) :
   | "ImageOut" => return normalizeImageOut env c
   | "Webvis" => return normalizeWebvis env c
   | "Recorder" => return normalizeRecorder env c
+  | "REST" => return normalizeREST true env c
+  | "REST:pinned" => return normalizeREST false env c
   | _ => throw s!"class {cls} is not modelled"
 
 def handle (op : String) (j : Json) : R Json := do
